@@ -186,6 +186,18 @@ pub fn attach_shared(s: Arc<Shared>) {
     T_SHARED.with(|t| *t.borrow_mut() = Some(s));
 }
 
+/// root of the graphrs tree under test (VERIF_REPO, default /repo) and of the verification directory
+pub fn repo_dir() -> String {
+    std::env::var("VERIF_REPO").ok().filter(|s| !s.is_empty()).unwrap_or_else(|| "/repo".to_string())
+}
+pub fn verif_dir() -> String {
+    std::env::var("VERIF_DIR").ok().filter(|s| !s.is_empty()).unwrap_or_else(|| "/verif".to_string())
+}
+/// panic location with the repo prefix removed (stable signatures whatever tree is under test)
+pub fn strip_repo(site: &str) -> String {
+    site.replace(&format!("{}/", repo_dir()), "")
+}
+
 pub fn current_shared() -> Option<Arc<Shared>> {
     T_SHARED.with(|t| t.borrow().clone())
 }
